@@ -274,4 +274,289 @@ theorem runs_exhaust (c : Cfg) (retries : Int) (op : Nat → Outcome) (ctx : Ctx
       simp only at hcalls
       have := hop (m + 1) (by omega) (by omega); rw [this] at hok; cases hok
 
+/-- **below_one_is_one.** A count below one (other than `Forever`) behaves exactly as a count of one. -/
+theorem below_one_is_one (c : Cfg) (retries : Int) (op : Nat → Outcome) (ctx : Ctx) (rnd : Nat → Int) (fuel : Nat)
+    (h : retries < 1) (hr : retries ≠ forever) :
+    run c retries op ctx rnd fuel = run c 1 op ctx rnd fuel := by
+  unfold run
+  split
+  · rfl
+  · split
+    · rfl
+    · rfl
+    · cases fuel with
+      | zero => rfl
+      | succ fuel =>
+        unfold loop
+        have h1 : ¬ (retries = forever ∨ ((1 : Nat) : Int) < retries) := by omega
+        have h2 : ¬ ((1 : Int) = forever ∨ ((1 : Nat) : Int) < 1) := by unfold forever; omega
+        simp only [h1, h2, if_false]
+
+/-- **stops_at_once.** A context that has ended at entry means the operation is never run; and no run follows a
+success, an unrecoverable error, or a wait at which the context ended / the deadline check failed. -/
+theorem stops_at_once (c : Cfg) (retries : Int) (op : Nat → Outcome) (ctx : Ctx) (rnd : Nat → Int) (fuel : Nat) :
+    (ctx.entry ≠ none → (run c retries op ctx rnd fuel).calls = 0) ∧
+    (ctx.entry = none → (run c retries op ctx rnd fuel).exhausted = false →
+      ∀ k, 1 ≤ k → (op k = .ok ∨ op k = .fatal ∨ ctx.ev k ≠ .pass) → (run c retries op ctx rnd fuel).calls ≤ k) := by
+  constructor
+  · intro h
+    unfold run
+    split
+    · rfl
+    · rename_i h'; exact absurd h' h
+  · intro he hx k hk hs
+    have ⟨_, _, t3⟩ := runs_total c retries op ctx rnd fuel he hx
+    apply Nat.not_lt.mp
+    intro hlt
+    refine t3 k hk hlt ?_
+    rcases hs with hs | hs | hs
+    · exact Or.inl (by simp [hs])
+    · exact Or.inl (by simp [hs])
+    · exact Or.inr (Or.inr hs)
+
+example : (runScript ⟨1, 0, 2, false⟩ forever [.retry, .retry, .fatal, .retry] none [] []).calls = 3 := by decide
+example : (runScript ⟨1, 0, 2, false⟩ forever [.retry, .retry, .retry] none [.pass, .ends .canceled] []).calls = 2 := by decide
+
+/-- **success_iff_last_ok.** The result is nil exactly when the last run succeeded. -/
+theorem success_iff_last_ok (c : Cfg) (retries : Int) (op : Nat → Outcome) (ctx : Ctx) (rnd : Nat → Int) (fuel : Nat)
+    (hx : (run c retries op ctx rnd fuel).exhausted = false) :
+    (run c retries op ctx rnd fuel).res = none ↔
+      (1 ≤ (run c retries op ctx rnd fuel).calls ∧ op (run c retries op ctx rnd fuel).calls = .ok) := by
+  cases he : ctx.entry with
+  | some e => simp [run, he]
+  | none =>
+    generalize ho : run c retries op ctx rnd fuel = o at hx ⊢
+    rcases run_cases c retries op ctx rnd fuel o ho he hx with ⟨h1, hr⟩ | ⟨h1, hr⟩ | ⟨h1, m, re, ws, hre, hex⟩
+    · subst hr; simp [h1]
+    · subst hr; simp [h1]
+    · have ⟨f1, f2, _⟩ := reaches_from_one _ _ _ _ _ hre h1
+      have hm := f2 m f1 (Nat.le_refl _)
+      cases hex with
+      | exhausted hc => simp [hm]
+      | exceeds hc hev => simp [hm]
+      | ends e hc hev => simp [hm]
+      | ok hc hev hop => simp [hop]
+      | fatal hc hev hop => simp [hop]
+
+/-- **failure_reason.** A non-nil result matches, in the `errors.Is` sense, the reason the retrying stopped:
+the context's error (at entry or at a wait), `ErrWaitExceedsDeadline`, the unrecoverable error, `ErrRetriesExceeded`.
+`MainErr` is that reason itself except in one case: when the very first run fails unrecoverably the code sets
+`MainErr = ErrRetriesExceeded`; the unrecoverable error then still matches because it is the only entry of `Others`. -/
+theorem failure_reason (c : Cfg) (retries : Int) (op : Nat → Outcome) (ctx : Ctx) (rnd : Nat → Int) (fuel : Nat)
+    (hx : (run c retries op ctx rnd fuel).exhausted = false) (fe : FErr)
+    (hres : (run c retries op ctx rnd fuel).res = some fe) :
+    fe.is fe.main = true ∧
+    (∀ e, ctx.entry = some e → fe.main = e) ∧
+    (ctx.entry = none →
+      (op (run c retries op ctx rnd fuel).calls = .fatal →
+          fe.is (.op (run c retries op ctx rnd fuel).calls) = true ∧
+          (2 ≤ (run c retries op ctx rnd fuel).calls → fe.main = .op (run c retries op ctx rnd fuel).calls) ∧
+          ((run c retries op ctx rnd fuel).calls = 1 → fe.main = .retriesExceeded ∧ fe.others = [.op 1])) ∧
+      (op (run c retries op ctx rnd fuel).calls = .retry →
+          (¬ cont retries (run c retries op ctx rnd fuel).calls → fe.main = .retriesExceeded) ∧
+          (cont retries (run c retries op ctx rnd fuel).calls →
+            (ctx.ev (run c retries op ctx rnd fuel).calls = .exceeds → fe.main = .waitExceedsDeadline) ∧
+            (∀ e, ctx.ev (run c retries op ctx rnd fuel).calls = .ends e → fe.main = e)))) := by
+  refine ⟨by simp [FErr.is], ?_, ?_⟩
+  · intro e he
+    simp [run, he] at hres
+    rw [← hres]
+  · intro he
+    generalize ho : run c retries op ctx rnd fuel = o at hx hres ⊢
+    rcases run_cases c retries op ctx rnd fuel o ho he hx with ⟨h1, hr⟩ | ⟨h1, hr⟩ | ⟨h1, m, re, ws, hre, hex⟩
+    · subst hr; simp at hres
+    · subst hr
+      simp only [Option.some.injEq] at hres
+      subst hres
+      simp [h1, newFError, FErr.is]
+    · have ⟨f1, f2, _⟩ := reaches_from_one _ _ _ _ _ hre h1
+      have hm := f2 m f1 (Nat.le_refl _)
+      cases hex with
+      | exhausted hc =>
+        simp only [Option.some.injEq] at hres; subst hres
+        simp [hm, hc]
+      | exceeds hc hev =>
+        simp only [Option.some.injEq] at hres; subst hres
+        simp [hm, hc, hev]
+      | ends e hc hev =>
+        simp only [Option.some.injEq] at hres; subst hres
+        simp [hm, hc, hev]
+      | ok hc hev hop => simp at hres
+      | fatal hc hev hop =>
+        simp only [Option.some.injEq] at hres; subst hres
+        simp [hop, FErr.is]
+        omega
+
+example : ∃ fe, (runScript ⟨1, 0, 2, false⟩ 5 [.fatal] none [] []).res = some fe ∧ fe.main = .retriesExceeded ∧
+    fe.is (.op 1) = true := ⟨_, rfl, by decide, by decide⟩
+example : ∃ fe, (runScript ⟨1, 0, 2, false⟩ 5 [.retry, .fatal] none [] []).res = some fe ∧ fe.main = .op 2 :=
+  ⟨_, rfl, by decide⟩
+
+/-- For the record (DESIGN.md): the error returned for a context that had ended at entry has an empty `Others`, so
+its `Is` method matches *every* target (the "all others match" loop is vacuous). -/
+theorem entry_is_vacuous (c : Cfg) (retries : Int) (op : Nat → Outcome) (ctx : Ctx) (rnd : Nat → Int) (fuel : Nat)
+    (e : Err) (he : ctx.entry = some e) :
+    ∃ fe, (run c retries op ctx rnd fuel).res = some fe ∧ fe.main = e ∧ fe.others = [] ∧ ∀ t, fe.is t = true := by
+  refine ⟨_, by simp [run, he]; rfl, rfl, rfl, fun t => by simp [FErr.is]⟩
+
+/-- **kept_errors.** A failure retains at most `max(1, KeepErrs)` errors, each of them an error that one of the runs
+really returned; the ring-buffer index stays inside the buffer (so `addErr` cannot panic). -/
+theorem kept_errors (c : Cfg) (retries : Int) (op : Nat → Outcome) (ctx : Ctx) (rnd : Nat → Int) (fuel : Nat)
+    (hx : (run c retries op ctx rnd fuel).exhausted = false) (fe : FErr)
+    (hres : (run c retries op ctx rnd fuel).res = some fe) :
+    (fe.others.length : Int) ≤ max 1 c.keepErrs ∧
+    (∀ x ∈ fe.others, ∃ i, 1 ≤ i ∧ i ≤ (run c retries op ctx rnd fuel).calls ∧ x = .op i ∧ op i ≠ .ok) ∧
+    (fe.others ≠ [] → fe.last < fe.others.length) ∧
+    (ctx.entry = none → 1 ≤ fe.others.length) := by
+  cases he : ctx.entry with
+  | some e =>
+    simp [run, he] at hres
+    subst hres
+    simp; omega
+  | none =>
+    generalize ho : run c retries op ctx rnd fuel = o at hx hres ⊢
+    have pack : ∀ n (re : FErr), FInv op c.keepErrs n re → ∀ k, n ≤ k → ∀ e,
+        (({ re with main := e } : FErr).others.length : Int) ≤ max 1 c.keepErrs ∧
+        (∀ x ∈ ({ re with main := e } : FErr).others, ∃ i, 1 ≤ i ∧ i ≤ k ∧ x = .op i ∧ op i ≠ .ok) ∧
+        (({ re with main := e } : FErr).others ≠ [] →
+          ({ re with main := e } : FErr).last < ({ re with main := e } : FErr).others.length) ∧
+        (True → 1 ≤ ({ re with main := e } : FErr).others.length) := fun n re hi k hk e =>
+      ⟨hi.len_le, fun x hx => by
+        obtain ⟨i, a, b, c', d⟩ := hi.mem x hx
+        exact ⟨i, a, by omega, c', d⟩, fun _ => hi.last_lt, fun _ => hi.len_pos⟩
+    rcases run_cases c retries op ctx rnd fuel o ho he hx with ⟨h1, hr⟩ | ⟨h1, hr⟩ | ⟨h1, m, re, ws, hre, hex⟩
+    · subst hr; simp at hres
+    · subst hr
+      simp only [Option.some.injEq] at hres
+      subst hres
+      have := pack 1 _ (finv_new op c.keepErrs (by simp [h1])) 1 (Nat.le_refl _) .retriesExceeded
+      simpa [newFError] using this
+    · have hinv := reaches_finv _ _ _ _ _ hre (finv_new op c.keepErrs (by simp [h1]))
+      cases hex with
+      | exhausted hc =>
+        simp only [Option.some.injEq] at hres; subst hres
+        simpa using pack m re hinv m (Nat.le_refl _) .retriesExceeded
+      | exceeds hc hev =>
+        simp only [Option.some.injEq] at hres; subst hres
+        simpa using pack m re hinv m (Nat.le_refl _) .retriesExceeded
+      | ends e hc hev =>
+        simp only [Option.some.injEq] at hres; subst hres
+        simpa using pack m re hinv m (Nat.le_refl _) .retriesExceeded
+      | ok hc hev hop => simp at hres
+      | fatal hc hev hop =>
+        simp only [Option.some.injEq] at hres; subst hres
+        simpa using pack m re hinv (m + 1) (by omega) .retriesExceeded
+
+example : ∃ fe, (runScript ⟨1, 0, 2, false⟩ forever [.retry, .retry, .retry, .retry, .fatal] none [] []).res = some fe ∧
+    fe.others = [.op 3, .op 4] ∧ fe.main = .op 5 := ⟨_, rfl, by decide, by decide⟩
+example : ∃ fe, (runScript ⟨1, 0, 0, false⟩ 4 [.retry, .retry, .retry, .retry] none [] []).res = some fe ∧
+    fe.others = [.op 1] := ⟨_, rfl, by decide⟩
+
+/-- **waits_are_nextWait.** The pause computed before the k-th re-run is `nextWait(k)` of the normalised policy with
+that wait's jitter draw; one pause per re-run, plus possibly a last one that the context or the deadline check cut
+short. -/
+theorem waits_are_nextWait (c : Cfg) (retries : Int) (op : Nat → Outcome) (ctx : Ctx) (rnd : Nat → Int) (fuel : Nat)
+    (hx : (run c retries op ctx rnd fuel).exhausted = false) :
+    (run c retries op ctx rnd fuel).waits =
+      (List.range' 1 (run c retries op ctx rnd fuel).waits.length).map (fun k : Nat => c.norm.nextWait k (rnd k)) ∧
+    (run c retries op ctx rnd fuel).calls - 1 ≤ (run c retries op ctx rnd fuel).waits.length ∧
+    (run c retries op ctx rnd fuel).waits.length ≤ (run c retries op ctx rnd fuel).calls := by
+  cases he : ctx.entry with
+  | some e => simp [run, he]
+  | none =>
+    generalize ho : run c retries op ctx rnd fuel = o at hx ⊢
+    rcases run_cases c retries op ctx rnd fuel o ho he hx with ⟨h1, hr⟩ | ⟨h1, hr⟩ | ⟨h1, m, re, ws, hre, hex⟩
+    · subst hr; simp
+    · subst hr; simp
+    · have hw : WInv c.norm rnd m ws := reaches_winv _ _ _ _ _ hre (Nat.le_refl _) (by simp [WInv])
+      have hm := (reaches_from_one _ _ _ _ _ hre h1).1
+      have hw' := winv_step c.norm rnd hm hw
+      have hl : ws.length = m - 1 := by rw [hw]; simp
+      unfold WInv at hw hw'
+      cases hex with
+      | exhausted hc =>
+        refine ⟨?_, by simp; omega, by simp; omega⟩
+        simp only [hl]; exact hw
+      | exceeds hc hev =>
+        refine ⟨?_, by simp; omega, by simp; omega⟩
+        simp only [List.length_append, List.length_singleton, hl]; rw [hw']; congr 2; omega
+      | ends e hc hev =>
+        refine ⟨?_, by simp; omega, by simp; omega⟩
+        simp only [List.length_append, List.length_singleton, hl]; rw [hw']; congr 2; omega
+      | ok hc hev hop =>
+        refine ⟨?_, by simp; omega, by simp; omega⟩
+        simp only [List.length_append, List.length_singleton, hl]; rw [hw']; congr 2; omega
+      | fatal hc hev hop =>
+        refine ⟨?_, by simp; omega, by simp; omega⟩
+        simp only [List.length_append, List.length_singleton, hl]; rw [hw']; congr 2; omega
+
+/-- **waits_bounded.** Every pause `RetryWithCtx` asks for is in `[0, Max']` (`Max'` = configured maximum, MaxInt64 if
+none), for every policy, every count, every behaviour of the operation and the context, every jitter draw. -/
+theorem waits_bounded (c : Cfg) (retries : Int) (op : Nat → Outcome) (ctx : Ctx) (rnd : Nat → Int) (fuel : Nat)
+    (hx : (run c retries op ctx rnd fuel).exhausted = false)
+    (hb : c.backOff < 2 ^ 63) (hm : c.max < 2 ^ 63) (hr : ∀ k, 0 ≤ rnd k) :
+    ∀ w ∈ (run c retries op ctx rnd fuel).waits, 0 ≤ w ∧ w ≤ (if c.max ≤ 0 then maxInt64 else c.max) := by
+  intro w hw
+  rw [(waits_are_nextWait c retries op ctx rnd fuel hx).1] at hw
+  obtain ⟨k, _, rfl⟩ := List.mem_map.mp hw
+  have := api_wait_bounds c k (rnd k) hb hm (hr k)
+  exact ⟨this.1, by rw [← this.2.2]; exact this.2.1⟩
+
+example : (runScript ⟨1000, 3000, 2, false⟩ 5 [.retry, .retry, .retry, .retry, .retry] none [] []).waits =
+    [1000, 2000, 3000, 3000] := by decide
+
+/-! ## the jitter feasibility decision used by the correspondence -/
+
+/-- every value the decision accepts is produced by some draw `0 ≤ s < 2^n` -/
+theorem feasible_sound (base max n w : Int) (h : feasible base max n w = true) :
+    ∃ s, 0 ≤ s ∧ s < 2 ^ n.toNat ∧ Gen.retry_nextWait base max 0 true n s = w := by
+  unfold feasible at h
+  split at h
+  · refine ⟨0, by omega, ?_, by simpa using h⟩
+    have := two_pow_mono (Nat.zero_le n.toNat); omega
+  · rw [List.any_eq_true] at h
+    obtain ⟨s, _, hs⟩ := h
+    simp only [Bool.and_eq_true, decide_eq_true_eq, beq_iff_eq] at hs
+    exact ⟨s, hs.1.1, hs.1.2, hs.2⟩
+
+/-- for positive int64 base and max, every value some draw produces is accepted: the decision is exact -/
+theorem feasible_complete (base max n w : Int) (hb : 1 ≤ base) (hm : 1 ≤ max) (hm' : max < 2 ^ 63)
+    (h : ∃ s, 0 ≤ s ∧ s < 2 ^ n.toNat ∧ Gen.retry_nextWait base max 0 true n s = w) :
+    feasible base max n w = true := by
+  obtain ⟨s, hs0, hs1, hw⟩ := h
+  unfold feasible
+  by_cases hn : n ≤ 0 ∨ n ≥ 63
+  · simp only [hn, if_true, beq_iff_eq]
+    rw [← hw, wait_jitter_exact base max 0 n s hb hm hm' hs0, wait_jitter_exact base max 0 n 0 hb hm hm' (by omega)]
+    rcases hn with hn | hn
+    · simp [hn]
+    · have : ¬ n ≤ 0 := by omega
+      simp [hn, this]
+  · simp only [hn, if_false]
+    have e1 : ∀ t, 0 ≤ t → Gen.retry_nextWait base max 0 true n t = min max (base * t) := fun t ht => by
+      rw [wait_jitter_exact base max 0 n t hb hm hm' ht]
+      have a : ¬ n ≤ 0 := by omega
+      have b : ¬ n ≥ 63 := by omega
+      simp [a, b]
+    rw [e1 s hs0] at hw
+    rw [List.any_eq_true]
+    have hb0 : base ≠ 0 := by omega
+    by_cases hle : base * s ≤ max
+    · -- the value is base * s itself: the candidate w / base = s
+      have hws : w = base * s := by omega
+      refine ⟨s, ?_, ?_⟩
+      · have : w / base = s := by rw [hws]; exact Int.mul_ediv_cancel_left s hb0
+        simp [feasCandidates, hb0, this]
+      · simp only [Bool.and_eq_true, decide_eq_true_eq, beq_iff_eq]
+        exact ⟨⟨hs0, hs1⟩, by rw [e1 s hs0]; omega⟩
+    · -- the value is max: the largest draw gives it as well
+      have hws : w = max := by omega
+      have hp := two_pow_mono (Nat.zero_le n.toNat)
+      have hmul : base * s ≤ base * (2 ^ n.toNat - 1) := Int.mul_le_mul_of_nonneg_left (by omega) (by omega)
+      refine ⟨2 ^ n.toNat - 1, by simp [feasCandidates], ?_⟩
+      simp only [Bool.and_eq_true, decide_eq_true_eq, beq_iff_eq]
+      exact ⟨⟨by omega, by omega⟩, by rw [e1 _ (by omega)]; omega⟩
+
+example : feasible 3 100 3 21 = true ∧ feasible 3 100 3 22 = false ∧ feasible 3 20 3 20 = true := by decide
+
 end LLRP.C18
